@@ -1124,6 +1124,9 @@ def phi_1D_X(xx, nu=1.0, theta0=1.0, gamma=0, h=0.5, beta=1, alpha=1):
     Returns:
         phi (array): A new phi array.
     """
+    # gamma is defined relative to the reference size, while drift in this
+    # population is 1/nu, so the equilibrium depends on gamma*nu.
+    gamma = gamma * nu
     Kv = (2.*beta+4.)*(beta+1.)/(9.*beta)
     Km1 = 4./3. * gamma*(0.5+h)
     Km2 = 4./3.*gamma*(1.-2.*h)
